@@ -223,6 +223,13 @@ class Verifier:
     # ---- verifying one function
     def verify(self, c):
         self.reset_fn(); self.cur = c
+        # fresh-name numbering restarts at a base derived from the function's key: the VCs of a function are then textually identical
+        # from run to run, whichever worker process verifies it and whatever it verified before (solver behaviour is sensitive to names)
+        import zlib as _zlib
+        from . import vtypes as _vt
+        _vt._fresh_ctr[0] = (_zlib.crc32(c.key.encode()) % 100000) * 10 ** 7
+        if not hasattr(self, '_default_timeout'): self._default_timeout = self.timeout_ms
+        self.timeout_ms = max(self._default_timeout, int(c.hints.get('timeout_ms', 0)))      # heavy (4-place quantifier) obligations get a larger, stated budget
         t0 = time.time()
         res = dict(function=c.key, status='ok', error=None)
         try:
